@@ -508,20 +508,31 @@ func (f *Frame) enterLoop(li *loopInfo, cur *State, phiEntry map[*ssa.Phi]Val) *
 			}
 		}
 		// a preserved class that the loop body writes itself is still modified
+		u.eventWhy = "a loop"
 		u.havocAllExcept(st, keep)
 		var own []matcher
 		for _, c := range sortedKeys(mods.classes) {
 			own = append(own, matcher{exact: c})
 		}
 		own = append(own, mods.pats...)
+		u.eventWhy = "a loop"
 		u.havocOnly(st, own)
+		if ev, ok := u.events[st.gen]; ok && len(own) > 0 {
+			ev.localOnly = mods.localOnlyCells(u.fn)
+			u.events[st.gen] = ev
+		}
 	} else {
 		var own []matcher
 		for _, c := range sortedKeys(mods.classes) {
 			own = append(own, matcher{exact: c})
 		}
 		own = append(own, mods.pats...)
+		u.eventWhy = "a loop"
 		u.havocOnly(st, own)
+		if ev, ok := u.events[st.gen]; ok && len(own) > 0 {
+			ev.localOnly = mods.localOnlyCells(u.fn)
+			u.events[st.gen] = ev
+		}
 	}
 	for c := range st.cells {
 		if mods.allocs[c.Alloc] || mods.allCells {
